@@ -1,3 +1,4 @@
+import Rp2.Props.Tables.Formulas
 import Rp2.Props.Tables.Consts
 import Rp2.Proofs.RoundErr
 import Rp2.Proofs.Accuracy
@@ -70,4 +71,67 @@ theorem gain_agrees_with_exact (p c pX cX δ : ℚ) (hδ : 0 ≤ δ) (hp : |p - 
     |rnd 31 (p - c) - (pX - cX)| ≤ (δ + eps31 * (1 + δ)) * (|pX| + |cX|) := gain_accuracy p c pX cX δ hδ hp hc
 theorem error_constants : 2 * eps31 + eps31 ^ 2 ≤ 101 / 100 * (1 / 10 ^ 30) ∧
     (2 * eps31 + eps31 ^ 2) + eps31 * (1 + (2 * eps31 + eps31 ^ 2)) ≤ 151 / 100 * (1 / 10 ^ 30) := constants_small
+
+/-! ## Translator tie: the Python bodies themselves (regenerated on every run, `Gen/Formulas.lean`) -/
+section Translator
+open Rp2.Gen.F
+/-- what `GainLoss.taxable_event_fiat_amount_with_fee_fraction`, `fiat_cost_basis` and `fiat_gain` compute — their bodies translated from
+    the source — is `proceeds`, `cost`, `gain` of the model (`none` = the internal-error raise for a lot-less disposal) -/
+theorem source_formulas_are_the_models (f : Fraction) :
+    GainLoss_taxable_event_fiat_amount_with_fee_fraction f = some f.proceeds ∧
+    GainLoss_fiat_cost_basis f = (if Tables.lotlessDisposal f then none else some f.cost) ∧
+    GainLoss_fiat_gain f = (if Tables.lotlessDisposal f then none else some f.gain) ∧
+    GainLoss_acquired_lot_fiat_amount_with_fee_fraction f = some f.cost :=
+  ⟨Tables.gainloss_proceeds f, Tables.gainloss_cost f, Tables.gainloss_gain f, Tables.gainloss_lot_amount_fraction f⟩
+/-- the taxable fiat value and the amount to match of each transaction class, as the source computes them, are the event view of the model -/
+theorem source_event_views_are_the_models (i : InTx) (hi : i.typ.isEarn = true) (o : OutTx) (x : IntraTx) :
+    (InTransaction_crypto_balance_change i = some (ofUnits i.toEv.amount) ∧ InTransaction_fiat_taxable_amount i = some i.toEv.fiatTaxable) ∧
+    (OutTransaction_crypto_balance_change o = some (ofUnits o.toEv.amount) ∧ OutTransaction_fiat_taxable_amount o = some o.toEv.fiatTaxable) ∧
+    (IntraTransaction_crypto_balance_change x = some (ofUnits x.toEv.amount) ∧ IntraTransaction_fiat_taxable_amount x = some x.toEv.fiatTaxable) :=
+  ⟨⟨(Tables.in_event_view i hi).1, (Tables.in_event_view i hi).2.1⟩, ⟨(Tables.out_event_view o).1, (Tables.out_event_view o).2.1⟩,
+   ⟨(Tables.intra_event_view x).1, (Tables.intra_event_view x).2.1⟩⟩
+/-- the constructors' derivations of the fiat fields (symbolic execution of the three `__init__` bodies) are `mkIn`, `mkOut`, `mkIntra` -/
+theorem source_constructors_are_the_models_in (row : Int) (ts : Stamp) (acct : Nat) (typ : TxType) (price amount : Int) (ff nf wf : Option Int) :
+    let t := mkIn row ts acct typ price amount ff nf wf
+    InTransaction_init_fiat_fee typ (ofUnits price) (ofUnits amount) none (nf.map ofUnits) (wf.map ofUnits) (ff.map ofUnits) = t.fiatFee ∧
+    InTransaction_init_fiat_in_no_fee typ (ofUnits price) (ofUnits amount) none (nf.map ofUnits) (wf.map ofUnits) (ff.map ofUnits) = t.fiatNoFee ∧
+    InTransaction_init_fiat_in_with_fee typ (ofUnits price) (ofUnits amount) none (nf.map ofUnits) (wf.map ofUnits) (ff.map ofUnits) = t.fiatWithFee :=
+  Tables.in_init_is_mkIn row ts acct typ price amount ff nf wf
+theorem source_constructors_are_the_models_out (row : Int) (ts : Stamp) (acct : Nat) (typ : TxType) (price o fee : Int) (w nf ff : Option Int)
+    (hsize : (o + fee).natAbs < 10 ^ 31) :
+    let t := mkOut row ts acct typ price o fee w nf ff
+    OutTransaction_init_crypto_out_no_fee typ (ofUnits price) (ofUnits o) (ofUnits fee) (w.map ofUnits) (nf.map ofUnits) (ff.map ofUnits) = ofUnits t.outNoFee ∧
+    OutTransaction_init_crypto_fee typ (ofUnits price) (ofUnits o) (ofUnits fee) (w.map ofUnits) (nf.map ofUnits) (ff.map ofUnits) = ofUnits t.fee ∧
+    OutTransaction_init_crypto_out_with_fee typ (ofUnits price) (ofUnits o) (ofUnits fee) (w.map ofUnits) (nf.map ofUnits) (ff.map ofUnits) = ofUnits t.outWithFee ∧
+    OutTransaction_init_fiat_out_no_fee typ (ofUnits price) (ofUnits o) (ofUnits fee) (w.map ofUnits) (nf.map ofUnits) (ff.map ofUnits) = t.fiatNoFee ∧
+    OutTransaction_init_fiat_fee typ (ofUnits price) (ofUnits o) (ofUnits fee) (w.map ofUnits) (nf.map ofUnits) (ff.map ofUnits) = t.fiatFee :=
+  Tables.out_init_is_mkOut row ts acct typ price o fee w nf ff hsize
+theorem source_constructors_are_the_models_intra (row : Int) (ts : Stamp) (src dst : Nat) (price sent recv : Int)
+    (hsize : (sent - recv).natAbs < 10 ^ 31) (hp : eq13 (ofUnits price) 0 = false) :
+    let t := mkIntra row ts src dst price sent recv
+    IntraTransaction_init_crypto_fee (some (ofUnits price)) (ofUnits sent) (ofUnits recv) = ofUnits (t.sent - t.recv) ∧
+    IntraTransaction_init_spot_price (some (ofUnits price)) (ofUnits sent) (ofUnits recv) = ofUnits t.price ∧
+    IntraTransaction_init_fiat_fee (some (ofUnits price)) (ofUnits sent) (ofUnits recv) = t.fiatFee :=
+  Tables.intra_init_is_mkIntra row ts src dst price sent recv hsize hp
+/-- and the parser model's IN row (crypto fee still attached) computes the same three fiat fields as the translated constructor -/
+theorem source_in_row_values (cfg : Config) (asset : String) (acct : String → String → Nat) (r : Nat) (row : List Cell) (p : ParsedIn)
+    (h : mkInRow cfg asset acct r row = .ok p) :
+    ∃ cfee fnf fwf ffee,
+      numArg cfg.inCols row "crypto_fee" = .ok cfee ∧ numArg cfg.inCols row "fiat_in_no_fee" = .ok fnf ∧
+      numArg cfg.inCols row "fiat_in_with_fee" = .ok fwf ∧ numArg cfg.inCols row "fiat_fee" = .ok ffee ∧
+      p.cryptoFee = (optNum cfee).getD 0 ∧
+      p.tx.fiatFee = InTransaction_init_fiat_fee p.tx.typ (ofUnits p.tx.price) (ofUnits p.tx.amount)
+        ((optNum cfee).map ofUnits) ((optNum fnf).map ofUnits) ((optNum fwf).map ofUnits) ((optNum ffee).map ofUnits) ∧
+      p.tx.fiatNoFee = InTransaction_init_fiat_in_no_fee p.tx.typ (ofUnits p.tx.price) (ofUnits p.tx.amount)
+        ((optNum cfee).map ofUnits) ((optNum fnf).map ofUnits) ((optNum fwf).map ofUnits) ((optNum ffee).map ofUnits) ∧
+      p.tx.fiatWithFee = InTransaction_init_fiat_in_with_fee p.tx.typ (ofUnits p.tx.price) (ofUnits p.tx.amount)
+        ((optNum cfee).map ofUnits) ((optNum fnf).map ofUnits) ((optNum fwf).map ofUnits) ((optNum ffee).map ofUnits) :=
+  Tables.mkInRow_fiat_fields_are_translated cfg asset acct r row p h
+/-- crypto amounts live on the 10⁻¹¹ grid, where the 31-digit decimal arithmetic is exact: no rounding enters sums of amounts -/
+theorem grid_arithmetic_is_exact (a b : Int) (h : (a + b).natAbs < 10 ^ 31) (h' : (a - b).natAbs < 10 ^ 31) :
+    dadd (ofUnits a) (ofUnits b) = ofUnits (a + b) ∧ dsub (ofUnits a) (ofUnits b) = ofUnits (a - b) :=
+  ⟨dadd_grid_exact a b h, dsub_grid_exact a b h'⟩
+theorem every_formula_accounted_for : (Gen.F.translated ++ Gen.F.untranslated).length = 37 := Tables.formulas_accounted_for
+end Translator
+
 end Rp2.C04
